@@ -13,7 +13,7 @@ RULE = (
     "counted; the maximum over the run must stay within a small constant per source plus the tool's documented window "
     "(batch size, n of nlargest/nsmallest, one head per source for merge, lead of the fastest over the slowest live child "
     "for tee) and must not grow between the two stream sizes. tee: lockstep, bounded lead, lag-then-catch-up, early close of a "
-    "started child, child closed before it was started. non-trivial = every case; distinct by (tool, pattern, N)"
+    "started child, child closed before it was started, child ended by an exception thrown in / by a transient source error. non-trivial = every case; distinct by (tool, pattern, N)"
 )
 EXHAUSTIVE = {"quick": False, "thorough": False}
 SCOPE = {"quick": "N in {60, 240}", "thorough": "N in {200, 2000}"}
@@ -28,6 +28,7 @@ class Source:
 
     def __init__(self, n, refs, probe=None, base=0, keyf=None):
         self.n, self.i, self.refs, self.probe, self.base, self.keyf = n, 0, refs, probe, base, keyf
+        self.fail_next = False
 
     def __aiter__(self):
         return self
@@ -35,6 +36,9 @@ class Source:
     async def __anext__(self):
         if self.probe is not None:
             self.probe()
+        if self.fail_next:
+            self.fail_next = False
+            raise ConnectionResetError("transient")
         if self.i >= self.n:
             raise StopAsyncIteration
         k = self.keyf(self.i) if self.keyf else self.i
@@ -85,7 +89,8 @@ AGGS = {
     "reduce": (lambda S: A.reduce(_last, S[0]), 1),
     "nlargest4": (lambda S: A.nlargest(S[0], 4), 4), "nsmallest3": (lambda S: A.nsmallest(S[0], 3, key=lambda x: -x.key), 3),
 }
-TEE_PATTERNS = ["lockstep", "lead5", "lag-then-catch-up", "close-started-child", "close-unstarted-child"]
+TEE_PATTERNS = ["lockstep", "lead5", "lag-then-catch-up", "close-started-child", "close-unstarted-child",
+                "child-killed-by-athrow", "child-killed-by-source-error"]
 
 
 def cases(tier, rng):
@@ -176,6 +181,19 @@ def _run_tee(pattern, nchild, n):
             step(i)
         drive(kids[nchild - 1].aclose())
         closed.add(nchild - 1)
+        while step(0):
+            for i in range(1, nchild - 1):
+                step(i)
+    elif pattern in ("child-killed-by-athrow", "child-killed-by-source-error"):
+        for i in range(nchild):
+            step(i)
+        victim = nchild - 1
+        if pattern == "child-killed-by-athrow":
+            drive(kids[victim].athrow(ValueError("consumer gave up")))
+        else:
+            src.fail_next = True          # the victim is the one fetching: every buffer is empty in lockstep
+            drive(kids[victim].__anext__())
+        closed.add(victim)
         while step(0):
             for i in range(1, nchild - 1):
                 step(i)
